@@ -173,7 +173,7 @@ func TestVerif_C15_find(t *testing.T) {
 		// independent oracle: a BOM decides first; otherwise the generator's declaration
 		ok := true
 		if bn, be := c15ExpectedBOM(content); bn != "" {
-			ok = (be == nil && e == nil) || (be != nil && e != nil && fmt.Sprint(be) == fmt.Sprint(e))
+			ok = (be == nil && e == nil) || (be != nil && e != nil && c15EncName(be) == c15EncName(e))
 		}
 		s.Case("c15find "+verifh.Hex(content)+" "+pre+" "+tbl.String(), impl, ok, "", e != nil,
 			fmt.Sprintf("FindEncoding(%s) = %v %q", c15Short(content), e, name))
